@@ -92,8 +92,8 @@ def run(ctx):
         if rng.random() < 0.3 and not explicit_r and max(vals) > 0:
             q = rng.choice([0.25, 0.5, 0.8])
             cq = q if rng.random() < 0.5 else (q, rng.choice([0.1, 0.5, 0.9]))
-            if np.quantile(D, q) <= 0:
-                cq = False
+            if np.quantile(D, q) <= 0 and method == "reciprocal":
+                cq = False      # the derived slope is a division by the quantile
         if cq is not False:
             kw["cover_quantile"] = cq
         wit = dict(fn="distance_to_similarity", D=np.asarray(D).tolist(), method=mname, kwargs={k: (list(v) if isinstance(v, tuple) else v) for k, v in kw.items()})
